@@ -86,9 +86,9 @@ def tlc_inputs(ctx):
     if len(sigs) > lim:
         ctx.rng.shuffle(sigs)
         sigs = sigs[:lim]
-    # plus `A f(A)` for every aggregate (TLC "ident" mode), so that each is described on every target
+    # plus `A f(A a)`, `void f(A)` (unnamed, first use) and `A f(void)` (return only) for every aggregate (TLC "ident" mode)
     idn = L.tlc_cached(ctx, "Abi", "MC_Abi_ident.cfg", workers=4, env={"ABI_IN": inp}, timeout=1200)
-    if not idn.ok or len(idn.vcases) != len(pool):
+    if not idn.ok or len(idn.vcases) != 3 * len(pool):
         raise vlib.MachineryError("ident run failed: %s" % idn.out[-2000:])
     sigs += [json.loads(v) for v in idn.vcases]
     return pool, sigs
@@ -119,11 +119,18 @@ class SigTU:
         self.used = sorted(used)
         self.kw = {i: ("union" if pool[i - 1]["un"] else "struct") for i in self.used}
 
-    def tname(self, p, decl):
+    def tname(self, p, decl, tag=None):
         t, obj = ref_c(p, 0, 0, 0)
         if p["k"] == "agg":
             t = t.replace("struct_or_union", self.kw[p["i"]])
-        return t % decl, obj
+            if tag:
+                t, obj = t.replace("A%d " % p["i"], tag + " "), "g" + tag
+        return (t % decl).rstrip(), obj
+
+    def fresh(self, out, i, tag):
+        """a copy of aggregate i under its own tag: its first by-value use is whatever comes next"""
+        out.append(L.Rendered(self.pool[i - 1], tag, "m%s_" % tag).text)
+        out.append("extern %s %s g%s;" % (self.kw[i], tag, tag))
 
     def source(self):
         out = []
@@ -138,18 +145,28 @@ class SigTU:
             out.append("extern %s ga_%s[4];" % (L.SC_C[n], n))
         out.append("extern __builtin_va_list g_valist;")
         for k, s in enumerate(self.sigs, self.base):
-            params = [self.tname(p, "a%d" % j)[0] for j, p in enumerate(s["ps"])]
+            # an unnamed aggregate parameter gets its own copy of the type, so that this definition is the first by-value
+            # use of the type in the unit; likewise the aggregate of the "u"/"r" identity signatures
+            tags = {}
+            for j, p in enumerate(s["ps"]):
+                if p["k"] == "agg" and (not p.get("nm", True) or s.get("fresh")):
+                    tags[j] = "A%dx%dx%d" % (p["i"], k, j)
+                    self.fresh(out, p["i"], tags[j])
+            rtag = None
+            if s["ret"]["k"] == "agg" and s.get("fresh") == "r":
+                rtag = "A%dx%dxr" % (s["ret"]["i"], k)
+                self.fresh(out, s["ret"]["i"], rtag)
+            params = [self.tname(p, "a%d" % j if p.get("nm", True) else "", tags.get(j))[0] for j, p in enumerate(s["ps"])]
             plist = ", ".join(params) if params else "void"
             if s["va"]:
                 plist += ", ..."
             if s["ret"]["k"] == "void":
                 rt, body = "void", ""
             else:
-                rt, robj = self.tname(s["ret"], "")
-                rt = rt.strip()
+                rt, robj = self.tname(s["ret"], "", rtag)
                 body = "return %s;" % robj
             out.append("%s f%d(%s) { %s }" % (rt, k, plist, body))
-            args = [self.tname(p, "")[1] for p in s["ps"] + s["xs"]]
+            args = [self.tname(p, "", tags.get(j))[1] for j, p in enumerate(s["ps"])] + [self.tname(p, "")[1] for p in s["xs"]]
             out.append("void c%d(void) { f%d(%s); }" % (k, k, ", ".join(args)))
         return "\n".join(out) + "\n"
 
@@ -169,7 +186,7 @@ def qterm(tdef, types):
     return {"k": tdef["kind"], "alts": alts}
 
 
-_RE_AGG = re.compile(r"^:A(\d+)\.\d+$")
+_RE_AGG = re.compile(r"^:A(\d+)(?:x\d+x(?:\d+|r))?\.\d+$")
 _RE_VAL = re.compile(r"^:va_list\.\d+$")
 
 
